@@ -727,3 +727,502 @@ def _check_delegation(ctx, repo) -> None:
         ctx.check(good, "R-DELEGATE", f"{s.qualname}:setter", s.where, f"self.grid.{pname} = {vparam}",
                   f"the {pname} setter does `{'; '.join(norm_text(st) for st in stores)}` instead of forwarding its "
                   f"argument to self.grid.{pname}", key_detail="setter")
+
+
+# =============================================================================================
+# Mutation-sweep round: R-DETERMINED (setters) and R-MATCH / R-CHECKMATCH (two-grid operations)
+# =============================================================================================
+def _setter_outcomes(it: Interp, repo):
+    """Every (setter, kind, configuration, outcome path) of the three property setters — the same
+    enumeration the R-GRIDSTATE interpretation uses."""
+    for pname, kind in PROPS.items():
+        setter = repo.method(MOD, "Grid", pname, kind="setter")
+        vparam = setter.positional_params[1]
+        for defined in itertools.product((False, True), repeat=3):
+            for locks in itertools.product((False, True), repeat=3):
+                for v_none in (False, True):
+                    init = {}
+                    for (fname, k), d in zip(FIELDS.items(), defined):
+                        init[fname] = atom(k, k + "0") if d else NONE
+                    for (lname, k), l in zip(LOCKS.items(), locks):
+                        init[lname] = l
+                    new = NONE if v_none else atom(kind, "new")
+                    it.cur = [setter]
+                    outs = it.exec_block(setter.body, [Path(dict(init), {vparam: new})])
+                    for o in outs:
+                        yield setter, pname, kind, defined, locks, v_none, init, o
+
+
+def _check_determined(ctx, repo) -> None:
+    """R-DETERMINED: assigning a value never leaves a grid with exactly two of the three quantities defined."""
+    cls = repo.cls(MOD, "Grid")
+    # the interpretation reports kind mix-ups through ctx.violation; those belong to R-GRIDSTATE, which runs
+    # afterwards on the same paths — here they are swallowed
+    it = Interp(_Muted(ctx), cls)
+    per: dict[str, dict] = {}
+    for setter, pname, kind, defined, locks, v_none, init, o in _setter_outcomes(it, repo):
+        s = per.setdefault(setter.qualname, {"fn": setter, "paths": 0, "bad": {}, "info": {}})
+        if v_none or o.status == "raise":
+            continue
+        s["paths"] += 1
+        fin = {FIELDS[f]: o.fields[f] for f in FIELDS}
+        missing = [k for k, v in fin.items() if v == NONE]
+        if len(missing) != 1:
+            continue
+        k = missing[0]
+        lock_of = {v: n for n, v in LOCKS.items()}[k]
+        cfg = _cfg_text(defined, locks, v_none, pname)
+        bucket = "info" if init[lock_of] is True else "bad"
+        e = s[bucket].setdefault(k, {"n": 0, "cfg": cfg, "state": ", ".join(show(fin[x]) for x in "EGS")})
+        e["n"] += 1
+    for fq, s in sorted(per.items()):
+        fn = s["fn"]
+        for k, e in sorted(s["info"].items()):
+            ctx.info("R-DETERMINED", f"{fq}:locked-undefined:{k}", fn.where,
+                     f"KNOWN-SEMANTICS the undefined {KIND_NAME[k]} is locked, so the assignment cannot fill it in: "
+                     f"(E,G,S)=({e['state']}) [first configuration: {e['cfg']}; {e['n']} path(s)]")
+        for k, e in sorted(s["bad"].items()):
+            ctx.violation("R-DETERMINED", f"{fq}:underdetermined", fn.where,
+                          f"a non-raising assignment of a value ends with two quantities defined but the "
+                          f"{KIND_NAME[k]} left undefined: (E,G,S)=({e['state']}); the grid never becomes fully "
+                          f"defined although two quantities determine it [first configuration: {e['cfg']}; "
+                          f"{e['n']} path(s)]", key_detail=KIND_NAME[k])
+        if not s["bad"]:
+            ctx.ok("R-DETERMINED", fq, fn.where,
+                   f"{s['paths']} non-raising value assignments: none ends with exactly two quantities defined "
+                   "(unless the third is locked)")
+    ctx.require(len(per) == 3, "R-DETERMINED did not reach the three setters")
+
+
+class _Muted:
+    """A ctx stand-in that drops reports (the interpreter is re-run for a second rule)."""
+
+    def __init__(self, ctx):
+        self.repo = ctx.repo
+
+    def violation(self, *a, **k):
+        pass
+
+    def ok(self, *a, **k):
+        pass
+
+    def info(self, *a, **k):
+        pass
+
+    def check(self, cond, *a, **k):
+        return cond
+
+
+# ---------------------------------------------------------------------------------------------
+# two-grid operations: Grid.match / Grid.check_match
+# ---------------------------------------------------------------------------------------------
+_WRAPPERS = {"array", "asarray", "asanyarray", "tuple", "list"}
+_SCALAR_CLOSE = {"allclose", "array_equal", "array_equiv"}
+_ELT_CLOSE = {"isclose"}
+
+
+def _callee(c: ast.Call) -> str:
+    """Last name of the called function / method (`np.all`, `xp.all`, `(a == b).all` -> "all")."""
+    if isinstance(c.func, ast.Attribute):
+        return c.func.attr
+    return c.func.id if isinstance(c.func, ast.Name) else ""
+
+
+@dataclass
+class _MPath:
+    env: dict
+    events: list = field(default_factory=list)  # ("eq"|"ne", q) ("none"|"notnone", owner, q) ("copy", dst, q, src, q2)
+    status: str = "run"
+
+    def fork(self) -> "_MPath":
+        return _MPath(dict(self.env), list(self.events), self.status)
+
+
+class _TwoGrid:
+    """Path enumeration of a Grid method that takes a second grid: tests on `owner.quantity` leave facts,
+    stores `owner.quantity = owner'.quantity'` leave copy events."""
+
+    def __init__(self, cls: ClassInfo, f: FuncInfo, owners: dict):
+        self.cls = cls
+        self.f = f
+        self.owners = owners  # local name -> "self" | "other"
+        self.depth = 0
+
+    # -------------------------------------------------------------- references
+    def ref(self, e: ast.expr, p: _MPath):
+        """-> (owner, quantity) when `e` denotes a grid quantity of one of the two grids, else None."""
+        if isinstance(e, ast.Attribute) and isinstance(e.value, ast.Name) and e.value.id in self.owners:
+            if e.attr in PROPS:
+                return (self.owners[e.value.id], e.attr)
+            return None
+        if isinstance(e, ast.Name):
+            v = p.env.get(e.id)
+            return v[1] if isinstance(v, tuple) and v[0] == "ref" else None
+        if isinstance(e, ast.Call):
+            short = (dotted(e.func) or "").split(".")[-1]
+            if short in _WRAPPERS and e.args and not isinstance(e.args[0], ast.Starred):
+                return self.ref(e.args[0], p)
+        return None
+
+    def reads_grid(self, e: ast.expr, p: _MPath) -> bool:
+        for n in ast.walk(e):
+            if isinstance(n, ast.Attribute) and isinstance(n.value, ast.Name) and n.value.id in self.owners:
+                return True
+            if isinstance(n, ast.Name) and isinstance(p.env.get(n.id), tuple) and p.env[n.id][0] in ("ref", "grid"):
+                return True
+        return False
+
+    def pair(self, a: ast.expr, b: ast.expr, p: _MPath, what: str) -> str:
+        ra, rb = self.ref(a, p), self.ref(b, p)
+        if ra is None or rb is None:
+            raise AnalysisError(f"{self.f.short}: `{what[:70]}` compares something that is not a grid quantity "
+                                "of the two grids")
+        if ra[0] == rb[0] or ra[1] != rb[1]:
+            raise AnalysisError(f"{self.f.short}: `{what[:70]}` does not compare the same quantity of the two grids")
+        return ra[1]
+
+    # -------------------------------------------------------------- tests
+    def elt(self, e: ast.expr, p: _MPath):
+        """-> ("eq"|"ne", q) for an element-wise (or tuple) comparison of the same quantity of both grids."""
+        if isinstance(e, ast.Compare) and len(e.ops) == 1 and isinstance(e.ops[0], (ast.Eq, ast.NotEq)):
+            if self.ref(e.left, p) is not None or self.ref(e.comparators[0], p) is not None:
+                q = self.pair(e.left, e.comparators[0], p, ast.unparse(e))
+                return ("eq" if isinstance(e.ops[0], ast.Eq) else "ne", q)
+        if isinstance(e, ast.Call):
+            short = (dotted(e.func) or "").split(".")[-1]
+            if short in _ELT_CLOSE and len(e.args) >= 2:
+                return ("eq", self.pair(e.args[0], e.args[1], p, ast.unparse(e)))
+            if short in ("logical_not", "invert") and len(e.args) == 1:
+                r = self.elt(e.args[0], p)
+                if r is not None:
+                    return ("ne" if r[0] == "eq" else "eq", r[1])
+        if isinstance(e, ast.UnaryOp) and isinstance(e.op, ast.Invert):
+            r = self.elt(e.operand, p)
+            if r is not None:
+                return ("ne" if r[0] == "eq" else "eq", r[1])
+        return None
+
+    def test(self, e: ast.expr, p: _MPath) -> list:
+        """-> [(truth, facts)]: the possible outcomes of the test with what each establishes."""
+        if isinstance(e, ast.Constant):
+            return [(bool(e.value), ())]
+        if isinstance(e, ast.Name):
+            v = p.env.get(e.id)
+            if isinstance(v, tuple) and v[0] == "const":
+                return [(bool(v[1]), ())]
+            if isinstance(v, tuple) and v[0] == "test":
+                return list(v[1])
+            if isinstance(v, tuple) and v[0] in ("ref", "grid"):
+                raise AnalysisError(f"{self.f.short}: truth value of a grid quantity `{e.id}` is not modelled")
+            return [(True, ()), (False, ())]
+        if isinstance(e, ast.UnaryOp) and isinstance(e.op, ast.Not):
+            return [(not t, f) for t, f in self.test(e.operand, p)]
+        if isinstance(e, ast.BoolOp):
+            is_and = isinstance(e.op, ast.And)
+            outs = [(None, ())]
+            for operand in e.values:
+                nxt = []
+                for t, f in outs:
+                    if t is not None and t is (not is_and):
+                        nxt.append((t, f))  # short-circuited: later operands are not evaluated
+                        continue
+                    for t2, f2 in self.test(operand, p):
+                        nxt.append((t2, f + f2))
+                outs = nxt
+            return outs
+        if isinstance(e, ast.Compare) and len(e.ops) == 1:
+            op, a, b = e.ops[0], e.left, e.comparators[0]
+            a_none = isinstance(a, ast.Constant) and a.value is None
+            b_none = isinstance(b, ast.Constant) and b.value is None
+            if isinstance(op, (ast.Is, ast.IsNot, ast.Eq, ast.NotEq)) and (a_none or b_none):
+                r = self.ref(a if b_none else b, p)
+                if r is not None:
+                    pos = isinstance(op, (ast.Is, ast.Eq))
+                    return [(pos, (("none",) + r,)), (not pos, (("notnone",) + r,))]
+            r = self.elt(e, p)
+            if r is not None:  # a comparison used directly as a truth value is a scalar (tuple) comparison
+                other = "ne" if r[0] == "eq" else "eq"
+                return [(True, ((r[0], r[1]),)), (False, ((other, r[1]),))]
+        if isinstance(e, ast.Call):
+            short = _callee(e)
+            red, arg = None, None
+            if short in ("all", "any") and len(e.args) == 1 and not e.keywords:
+                red, arg = short, e.args[0]
+            elif short in ("all", "any") and not e.args and isinstance(e.func, ast.Attribute):
+                red, arg = short, e.func.value
+            if red is not None:
+                r = self.elt(arg, p)
+                if r is not None:
+                    kind, q = r
+                    if (red, kind) == ("all", "eq"):
+                        return [(True, (("eq", q),)), (False, (("ne", q),))]
+                    if (red, kind) == ("any", "ne"):
+                        return [(True, (("ne", q),)), (False, (("eq", q),))]
+                    if (red, kind) == ("any", "eq"):  # some element equal: nothing known; none equal: different
+                        return [(True, ()), (False, (("ne", q),))]
+                    return [(True, (("ne", q),)), (False, ())]  # all(ne)
+                sub = self.test_or_none(arg, p)
+                if sub is not None:
+                    return sub  # all()/any() of a scalar truth value
+            if short in _SCALAR_CLOSE and len(e.args) >= 2:
+                if self.ref(e.args[0], p) is not None or self.ref(e.args[1], p) is not None:
+                    q = self.pair(e.args[0], e.args[1], p, ast.unparse(e))
+                    return [(True, (("eq", q),)), (False, (("ne", q),))]
+            if short == "bool" and len(e.args) == 1:
+                return self.test(e.args[0], p)
+        if self.reads_grid(e, p):
+            raise AnalysisError(f"{self.f.short}: test `{ast.unparse(e)[:70]}` reads the grids in a form the analyser "
+                                "cannot decide")
+        return [(True, ()), (False, ())]
+
+    def test_or_none(self, e: ast.expr, p: _MPath):
+        if isinstance(e, (ast.Compare, ast.BoolOp)) or (isinstance(e, ast.UnaryOp) and isinstance(e.op, ast.Not)) or (
+                isinstance(e, ast.Call) and _callee(e) in (
+                    {"all", "any", "bool"} | _SCALAR_CLOSE)):
+            return self.test(e, p)
+        return None
+
+    # -------------------------------------------------------------- statements
+    def block(self, stmts, paths):
+        for st in stmts:
+            nxt = []
+            for p in paths:
+                nxt.extend(self.stmt(st, p) if p.status == "run" else [p])
+            paths = nxt
+            if len(paths) > 4096:
+                raise AnalysisError(f"{self.f.short}: path explosion")
+        return paths
+
+    def stmt(self, st: ast.stmt, p: _MPath) -> list:
+        if isinstance(st, (ast.Pass, ast.Assert, ast.Import, ast.ImportFrom)):
+            return [p]
+        if isinstance(st, ast.Expr):
+            if isinstance(st.value, ast.Constant):
+                return [p]
+            if isinstance(st.value, ast.Call):
+                return self.call_stmt(st.value, p)
+            raise AnalysisError(f"{self.f.short}: expression statement not supported: {norm_text(st)[:60]}")
+        if isinstance(st, ast.Raise):
+            p.status = "raise"
+            return [p]
+        if isinstance(st, ast.Return):
+            p.status = "ret"
+            return [p]
+        if isinstance(st, ast.If):
+            outs = []
+            for t, facts in self.test(st.test, p):
+                q = p.fork()
+                q.events.extend(facts)
+                outs.extend(self.block(st.body if t else st.orelse, [q]))
+            return outs
+        if isinstance(st, (ast.Assign, ast.AnnAssign)):
+            targets = st.targets if isinstance(st, ast.Assign) else [st.target]
+            if st.value is None:
+                return [p]
+            if len(targets) != 1:
+                raise AnalysisError(f"{self.f.short}: chained assignment not supported: {norm_text(st)[:60]}")
+            t = targets[0]
+            if isinstance(t, ast.Name):
+                r = self.ref(st.value, p)
+                if r is not None:
+                    p.env[t.id] = ("ref", r)
+                elif isinstance(st.value, ast.Name) and st.value.id in self.owners:
+                    raise AnalysisError(f"{self.f.short}: alias of a grid object `{norm_text(st)[:60]}` not modelled")
+                else:
+                    sub = self.test_or_none(st.value, p)
+                    if sub is not None:
+                        p.env[t.id] = ("test", tuple(sub))
+                    elif self.reads_grid(st.value, p):
+                        raise AnalysisError(f"{self.f.short}: `{norm_text(st)[:60]}` derives a value from the grids in "
+                                            "a form the analyser cannot follow")
+                    else:
+                        p.env[t.id] = ("opaque",)
+                return [p]
+            if isinstance(t, ast.Attribute) and isinstance(t.value, ast.Name) and t.value.id in self.owners:
+                dst = self.owners[t.value.id]
+                if t.attr not in PROPS:
+                    raise AnalysisError(f"{self.f.short}: store `{norm_text(st)[:60]}` does not go through one of the "
+                                        "extent/gpts/sampling setters")
+                src = self.ref(st.value, p)
+                if src is None:
+                    raise AnalysisError(f"{self.f.short}: `{norm_text(st)[:60]}` assigns something that is not a "
+                                        "quantity of the two grids")
+                p.events.append(("copy", dst, t.attr, src[0], src[1]))
+                return [p]
+            raise AnalysisError(f"{self.f.short}: assignment target not supported: {norm_text(st)[:60]}")
+        raise AnalysisError(f"{self.f.short}: statement {type(st).__name__} not supported by the two-grid interpreter")
+
+    def call_stmt(self, c: ast.Call, p: _MPath) -> list:
+        fn = dotted(c.func) or ""
+        head = fn.split(".")[0]
+        if head in self.owners and fn.count(".") == 1:
+            if self.owners[head] != "self":
+                raise AnalysisError(f"{self.f.short}: method call on the other grid `{ast.unparse(c)[:60]}` not modelled")
+            m = self.cls.find_method(fn.split(".")[1], "getter")
+            if m is None or m.is_property:
+                raise AnalysisError(f"{self.f.short}: call of unknown method {fn}")
+            if self.depth > 3:
+                raise AnalysisError(f"{self.f.short}: method call nesting too deep")
+            if any(isinstance(a, ast.Starred) for a in c.args) or c.keywords:
+                raise AnalysisError(f"{self.f.short}: call form `{ast.unparse(c)[:60]}` not modelled")
+            params = m.positional_params
+            if len(c.args) != len(params) - 1 and not all(n in m.defaults() for n in params[1 + len(c.args):]):
+                raise AnalysisError(f"{self.f.short}: `{ast.unparse(c)[:60]}` does not bind every parameter")
+            owners = {params[0]: "self"}
+            env = {}
+            for name, a in zip(params[1:], c.args):
+                if isinstance(a, ast.Name) and a.id in self.owners:
+                    owners[name] = self.owners[a.id]
+                elif self.reads_grid(a, p):
+                    raise AnalysisError(f"{self.f.short}: argument `{ast.unparse(a)[:40]}` of {fn} not modelled")
+                else:
+                    env[name] = ("opaque",)
+            if sorted(owners.values()) != ["other", "self"]:
+                raise AnalysisError(f"{self.f.short}: {fn}(...) is not called with the other grid")
+            sub = _TwoGrid(self.cls, m, owners)
+            sub.depth = self.depth + 1
+            q = _MPath(env, list(p.events))
+            outs = sub.block(strip_docstring(m.node.body), [q])
+            res = []
+            for o in outs:
+                r = _MPath(dict(p.env), o.events, "raise" if o.status == "raise" else "run")
+                res.append(r)
+            return res
+        for a in list(c.args) + [k.value for k in c.keywords]:
+            if self.reads_grid(a, p) or (isinstance(a, ast.Name) and a.id in self.owners):
+                raise AnalysisError(f"{self.f.short}: the grids escape into `{ast.unparse(c)[:60]}`")
+        return [p]
+
+
+def _two_grid_paths(cls: ClassInfo, f: FuncInfo, env: dict) -> list:
+    params = f.positional_params
+    if len(params) < 2:
+        raise AnalysisError(f"{f.short}: no parameter for the other grid")
+    tg = _TwoGrid(cls, f, {params[0]: "self", params[1]: "other"})
+    return tg.block(strip_docstring(f.node.body), [_MPath(dict(env))])
+
+
+def _quantities_compared(paths) -> set:
+    return {ev[1] for p in paths for ev in p.events if ev[0] in ("eq", "ne")}
+
+
+def _check_checkmatch(ctx, repo, cls: ClassInfo) -> set:
+    f = repo.method(MOD, "Grid", "check_match")
+    paths = _two_grid_paths(cls, f, {})
+    compared = _quantities_compared(paths)
+    ctx.require(len(compared) >= 2, "Grid.check_match compares fewer than two of extent/gpts/sampling of the two "
+                                    "grids (two quantities determine a grid)")
+    ctx.require(any(p.status == "raise" for p in paths), "Grid.check_match never raises")
+    for q in sorted(compared):
+        bad = [p for p in paths if p.status != "raise" and ("ne", q) in p.events and ("eq", q) not in p.events]
+        good = [p for p in paths if p.status == "raise" and ("ne", q) in p.events]
+        ctx.check(not bad and bool(good), "R-CHECKMATCH", f"{f.qualname}:{q}", f.where,
+                  f"{len(paths)} paths: every path on which the {q} of the two grids was found different raises",
+                  (f"{len(bad)} path(s) return normally although a test on them established that the {q} of the two "
+                   f"grids differs" if bad else f"no raising path follows a test that found the {q} different") +
+                  f" (facts on such a path: {_show_events((bad or paths)[0])})", key_detail="differ-passes")
+    return compared
+
+
+def _show_events(p: _MPath) -> str:
+    out = []
+    for ev in p.events:
+        if ev[0] in ("eq", "ne"):
+            out.append(f"{ev[1]} {'equal' if ev[0] == 'eq' else 'different'}")
+        elif ev[0] in ("none", "notnone"):
+            out.append(f"{ev[1]}.{ev[2]} is {'None' if ev[0] == 'none' else 'defined'}")
+        else:
+            out.append(f"{ev[1]}.{ev[2]} = {ev[3]}.{ev[4]}")
+    return "; ".join(out) or "none"
+
+
+def _check_match(ctx, repo, cls: ClassInfo, checked: set) -> None:
+    f = repo.method(MOD, "Grid", "match")
+    flag = [n for n in f.params[2:] if isinstance(f.defaults().get(n), ast.Constant)
+            and isinstance(f.defaults()[n].value, bool)]
+    ctx.require(len(flag) == 1, "Grid.match: expected exactly one boolean option (check before overriding)")
+    runs = {v: _two_grid_paths(cls, f, {flag[0]: ("const", v)}) for v in (False, True)}
+    handled = set()
+    for paths in runs.values():
+        for p in paths:
+            handled |= {ev[2] for ev in p.events if ev[0] == "copy"}
+    ctx.require(len(handled) >= 2, "Grid.match copies fewer than two of extent/gpts/sampling between the grids")
+
+    # (a) quantities found different (or undefined on one side) are copied; copies keep the kind
+    for q in sorted(handled | _quantities_compared(runs[False])):
+        differ, undefined, mixed = [], [], []
+        for p in runs[False]:
+            if p.status == "raise":
+                continue
+            evs = p.events
+            for i, ev in enumerate(evs):
+                later_copy = any(e[0] == "copy" and e[2] == q and e[4] == q and e[1] != e[3] for e in evs[i + 1:])
+                if ev == ("ne", q) and not later_copy and not any(e == ("eq", q) for e in evs[i + 1:]):
+                    differ.append(p)
+                if ev[0] == "none" and ev[2] == q and not later_copy:
+                    peer = "self" if ev[1] == "other" else "other"
+                    if ("none", peer, q) not in evs:
+                        undefined.append(p)
+                if ev[0] == "copy" and ev[2] == q and (ev[4] != q or ev[1] == ev[3]):
+                    mixed.append(p)
+        n = sum(1 for p in runs[False] if p.status != "raise")
+        ctx.check(not differ, "R-MATCH", f"{f.qualname}:{q}:copied-when-different", f.where,
+                  f"{n} paths: whenever a test finds the {q} of the two grids different, one grid's {q} is assigned "
+                  "to the other afterwards",
+                  f"{len(differ)} path(s) establish that the {q} of the two grids differs and end without assigning "
+                  f"one grid's {q} to the other: after match() the grids still disagree (events: "
+                  f"{_show_events(differ[0]) if differ else ''})", key_detail="differ-not-copied")
+        ctx.check(not undefined, "R-MATCH", f"{f.qualname}:{q}:copied-when-undefined", f.where,
+                  f"whenever the {q} of one grid is found undefined it receives the {q} of the other grid",
+                  f"{len(undefined)} path(s) find the {q} of one grid undefined and end without giving it the {q} of "
+                  f"the other grid (events: {_show_events(undefined[0]) if undefined else ''})",
+                  key_detail="undefined-not-copied")
+        ctx.check(not mixed, "R-MATCH", f"{f.qualname}:{q}:same-quantity", f.where,
+                  f"every store into {q} copies the {q} of the other grid",
+                  f"a store into {q} does not copy the {q} of the other grid (events: "
+                  f"{_show_events(mixed[0]) if mixed else ''})", key_detail="kind")
+
+    # (b) with the checking option on, a defined quantity is only overridden after the comparison that raises
+    for q in sorted(checked & handled):
+        bad = [p for p in runs[True] if p.status != "raise"
+               and any(e[0] == "copy" and e[2] == q for e in p.events)
+               and not _checked_before_copy(p.events, q)]
+        ctx.check(not bad and any(p.status == "raise" for p in runs[True]), "R-MATCH",
+                  f"{f.qualname}:{q}:checked-before-override", f.where,
+                  f"with {flag[0]}=True every path that stores a {q} has first established that the two {q} agree or "
+                  "that one of them is undefined (the failing comparison raises)",
+                  f"with {flag[0]}=True {len(bad)} path(s) store a {q} without any preceding comparison that would "
+                  f"have raised on a mismatch: defined parameters are overridden silently (events: "
+                  f"{_show_events(bad[0]) if bad else 'no raising path at all'})", key_detail="unchecked")
+
+
+def _checked_before_copy(evs: list, q: str) -> bool:
+    for i, ev in enumerate(evs):
+        if ev[0] == "copy" and ev[2] == q:
+            before = evs[:i]
+            return ("eq", q) in before or any(e[0] == "none" and e[2] == q for e in before)
+    return True
+
+
+_inner_run_c17_sweep = run
+
+
+def run(ctx) -> None:  # noqa: F811
+    ctx.rule("R-DETERMINED", "same interpretation as R-GRIDSTATE: a non-raising assignment of a value (not None) never "
+             "ends with exactly two of extent/gpts/sampling defined and the third undefined (unless the undefined one "
+             "is locked): two quantities determine the grid, and a grid that stays half-defined after the assignment "
+             "never reaches the fully defined, consistent state the property speaks about")
+    ctx.rule("R-CHECKMATCH", "path enumeration of Grid.check_match over the facts its tests establish (equality / "
+             "closeness / difference of the same quantity of the two grids, all()/any() reductions, negation): every "
+             "path on which a quantity was found different raises; at least two quantities are compared")
+    ctx.rule("R-MATCH", "path enumeration of Grid.match: all stores go through the extent/gpts/sampling setters of one "
+             "of the two grids (decided by R-GRIDSTATE, so each grid stays consistent) and copy the same quantity of "
+             "the other grid; on every path a quantity found different, or found undefined on one side, is "
+             "subsequently copied from one grid to the other (else the grids still disagree after match()); with the "
+             "checking option on, no quantity is stored before the comparison that raises on a mismatch has passed")
+    repo = ctx.repo
+    cls = repo.cls(MOD, "Grid")
+    _check_determined(ctx, repo)
+    checked = _check_checkmatch(ctx, repo, cls)
+    _check_match(ctx, repo, cls, checked)
+    _inner_run_c17_sweep(ctx)
